@@ -109,4 +109,57 @@ PROPS = {
             'std HashMap::get_mut full-view frame (prelude/hashmap.inc)',
         ],
     },
+    'C05': {
+        'units': ['script_btc'],
+        'kani_quick': [],
+        'kani_thorough': [],
+        'trusted': [
+            'rust-bitcoin Script predicates == the byte templates of unit script_btc (is_op_return/p2pk/p2pkh/p2sh/p2wpkh/p2wsh/p2tr/is_witness_program, Address::from_script decision): validated against the real crate by Kani over all scripts up to the template length (lane K)',
+            'Script::is_multisig (m-of-n template) and the Instructions iterator: CBMC cannot execute them -- TRUSTED contracts',
+            'Address Display / to_string (Base58Check, Bech32, Bech32m text, prefix, checksum): rust-bitcoin encoders, trusted; the proof fixes WHICH hash / witness program and network reach them',
+            'hash160 primitive (uninterpreted)',
+        ],
+    },
+    'C16': {
+        'units': ['script_btc', 'script_custom'],
+        'kani_quick': [],
+        'kani_thorough': [],
+        'trusted': [
+            'OpReturn::on_block (the printing loop: skips empty payloads, one line per OP_RETURN output in tx/output order) uses `continue` inside `for` (rejected by this Verus) and println! -- UNCHECKED; what is decided is the payload value that loop prints',
+            'String::from_utf8 == (utf8_valid, utf8_decode), String::from_utf8_lossy == lossy_utf8: uninterpreted std functions',
+            'rust-bitcoin Instructions iterator follows Bitcoin push rules (shim contract, trusted)',
+        ],
+    },
+    'C14': {
+        'units': ['script_btc', 'script_custom', 'reader'],
+        'kani_quick': [],
+        'kani_thorough': [],
+        'explanation': 'C14 reports the SAFETY obligations (arithmetic overflow, division by zero, slice index, unwrap/expect/unreachable/panic reachability) of every function on the script-evaluation and transaction-parsing path, plus the clauses tagged C14 (evaluation never yields ScriptPattern::Error; scriptSig/witness bytes are length-delimited and never interpreted).',
+        'trusted': [
+            'rust-bitcoin predicates, Address::from_script and Display are total (no panic): Kani no-panic harnesses on short scripts (bounded)',
+            'String::from_utf8 / from_utf8_lossy total',
+            'process-level exit status and "all other rows unchanged" need the whole pipeline incl. file I/O: outside; SimpleStats/OpReturn callbacks: see C15/C16',
+        ],
+    },
+    'C01': {
+        'units': ['reader'],
+        'kani_quick': [],
+        'kani_thorough': [],
+        'trusted': [
+            'PARTIAL: decode fidelity, witness stripping, hash pre-images, count == length are decided; the CSV TEXT (as_csv: format!/Display of integers and hashes, arr_to_hex fold) and CsvDump::on_block row emission are outside both verifiers -- UNCHECKED',
+            'std::io::Read::read_exact and byteorder read_u8/u16/u32/u64::<LittleEndian> consume exactly their bytes (shim trait Read in unit reader; LE decoders Kani-validated)',
+            'read_txs / read_merkle_branch (`(0..n).map(..).collect()`): assumed in Verus, bounded Kani harness on the real code',
+            'rayon into_par_iter().map().collect() preserves order (Block::new, EvaluatedTx::new)',
+            'sha256d primitive (uninterpreted)',
+        ],
+    },
+    'C12': {
+        'units': ['reader'],
+        'kani_quick': [],
+        'kani_thorough': [],
+        'trusted': [
+            'read_merkle_branch consumes count || hashes || mask (assumed in Verus; bounded Kani harness on the real code)',
+            'per-coin aux_pow_activation_version table (namecoin 0x10101, dogecoin 0x620102, others None): lane K table check',
+        ],
+    },
 }
